@@ -53,7 +53,17 @@ type PtrRel struct {
 	P *Canary
 }
 
-var ptrTypes = []reflect.Type{reflect.TypeOf(PtrA{}), reflect.TypeOf(PtrB{}), reflect.TypeOf(PtrC{})}
+// PtrD: pointers inside an array of structs, behind an interface and in a closure.
+type PtrD struct {
+	A [2]struct {
+		N uint64
+		P *Canary
+	}
+	I interface{}
+	F func() uint64
+}
+
+var ptrTypes = []reflect.Type{reflect.TypeOf(PtrA{}), reflect.TypeOf(PtrB{}), reflect.TypeOf(PtrC{}), reflect.TypeOf(PtrD{})}
 var ptrRelType = reflect.TypeOf(PtrRel{})
 
 func (t TypeSpec) IsPtr() bool { return t.Kind == "ptr" || t.Kind == "ptrrel" }
